@@ -300,64 +300,215 @@ def rule_n(F):
     return res
 
 
+def fb_first_ln(fn, b):
+    for st in fn.blocks[b]["stmts"]:
+        if st.get("ln"):
+            return st["ln"]
+    return fn.blocks[b]["term"].get("ln")
+
+
 def rule_b(F):
+    from cao import framebal as fb
     res = []
-    f = F.fn("vm::Vm::run_function")
+    f0 = F.fn("vm::Vm::run_function")
+    memo = {}
+    # the unit: run_function and the crate-local helpers through which it pushes frames / runs the callee
+    unit = [f0]
+    work = [f0]
+    while work:
+        cur = work.pop()
+        for bi, t in mu.calls(cur):
+            for n in callee_names(t["func"]):
+                g = F.fn(n, required=False)
+                if g is not None and g.mir and not g.is_closure and g is not f0 and n.startswith("vm::Vm::") and n != "vm::Vm::_run" \
+                        and fb._touches(F, g, memo) and g not in unit:
+                    unit.append(g)
+                    work.append(g)
+    direct = [g for g in unit[1:] if any(g.short in callee_names(t["func"]) for _bi, t in mu.calls(f0))]
+    key = "C18/B/run_function/frames-balanced"
+    try:
+        ds = fb.deltas(F, f0, memo)
+    except fb.Undecided as e:
+        ds = None
+        res.append(undecided("C18.B", key, f0.loc(), "frame balance of run_function not decided: %s" % e))
+    if ds is not None:
+        if ds == {0}:
+            res.append(ok("C18.B", key, f0.loc(), "on every non-error path through run_function%s pushes - pops - (callee Return) = 0"
+                          % ("" if len(unit) == 1 else " and %s" % [g.short.rsplit("::", 1)[-1] for g in unit[1:]])))
+        else:
+            res.append(bad("C18.B", key, f0.loc(), "run_function has non-error paths on which call-frame pushes - pops - (the callee's Return) is %s "
+                           "instead of 0: on such a path (e.g. a native function value as the callee, which pushes no frame) the caller's own "
+                           "frame is popped or a frame is left behind, so the caller's call stack is not what it was before the call"
+                           % sorted(d for d in ds if d != 0)))
+    # error paths: a failed call is unwound before the error is handed to the host function
+    key_e = "C18/B/run_function/failed-call-unwinds"
+    cfg0 = f0.cfg
+    du0 = DefUse(f0)
+
+    def pops_in_loop(g):
+        dug = DefUse(g)
+        hdrs = set(h for _s, h in g.cfg.back_edges())
+        for bi, t in mu.calls(g):
+            if "collections::bounded_stack::BoundedStack::pop" in callee_names(t["func"]) and t["args"] and fb._is_call_stack(g, dug, t["args"][0]):
+                if any(g.cfg.dominates(h, bi) and bi in g.cfg.can_reach([s_ for s_, hh in g.cfg.back_edges() if hh == h], avoid=[]) for h in hdrs):
+                    return True
+        return False
+
+    def has_push(g, depth=0):
+        dug = DefUse(g)
+        for _bi, t in mu.calls(g):
+            nm_ = callee_names(t["func"])
+            if "collections::bounded_stack::BoundedStack::push" in nm_ and t["args"] and fb._is_call_stack(g, dug, t["args"][0]):
+                return True
+            if depth < 3:
+                for n_ in nm_:
+                    h_ = F.fn(n_, required=False)
+                    if h_ is not None and h_.mir and not h_.is_closure and h_ is not g and n_.startswith("vm::Vm::") and n_ != "vm::Vm::_run" \
+                            and h_ is not f0 and has_push(h_, depth + 1):
+                        return True
+        return False
+
+    def truncates(g, depth=0):
+        for bi, t in mu.calls(g):
+            nm = callee_names(t["func"])
+            if any(n.endswith("ValueStack::clear_until") for n in nm):
+                return True
+        return False
+
+    unwinders = [g for g in F.fns if g.mir and not g.is_closure and g.path.startswith("vm::") and pops_in_loop(g)]
+    leak_memo = {}
+
+    def leaks_of(g, depth=0):
+        """error exits of g that are reachable after frames were pushed (directly, or by a helper that does not unwind its own
+        failures) without passing the unwinding of the call stack and of the value stack"""
+        if g.short in leak_memo:
+            return leak_memo[g.short]
+        leak_memo[g.short] = ([], [], 0)
+        cfg_g = g.cfg
+        du_g = DefUse(g)
+        ub, tb = set(), set()
+        for bi, t in mu.calls(g):
+            nm = callee_names(t["func"])
+            for u in unwinders:
+                if u.short in nm and u is not g:
+                    ub.add(bi)
+                    if truncates(u):
+                        tb.add(bi)
+            if any(n.endswith("ValueStack::clear_until") for n in nm):
+                tb.add(bi)
+            if "collections::bounded_stack::BoundedStack::pop" in nm and t["args"] and fb._is_call_stack(g, du_g, t["args"][0]) and \
+                    any(cfg_g.dominates(h, bi) for _s, h in cfg_g.back_edges()):
+                ub.add(bi)
+        sites = []
+        for bi, t in mu.calls(g):
+            nm = callee_names(t["func"])
+            if "collections::bounded_stack::BoundedStack::push" in nm and t["args"] and fb._is_call_stack(g, du_g, t["args"][0]):
+                sites.append((bi, t))
+                continue
+            for n_ in nm:
+                h_ = F.fn(n_, required=False)
+                if h_ is not None and h_ in unit and h_ is not g and h_ is not f0 and has_push(h_) and depth < 4 and leaks_of(h_, depth + 1)[0]:
+                    sites.append((bi, t))     # a helper that may fail with its frames still pushed
+                    break
+        errs = [b_ for b_ in cfg_g.reach if fb._error_block(g, b_)]
+        # a tail `_0 = callee(..)` that hands the callee's Result on is an error exit too
+        for bi, t in mu.calls(g):
+            if t["dest"]["l"] == 0 and not t["dest"]["p"] and bi not in errs and "Result" in (g.mir.get("ret_ty") or "Result"):
+                errs.append(bi)
+        out = []
+        for bi, t in sites:
+            if t.get("target") is None:
+                continue
+            reach = cfg_g.reachable_from(t["target"])
+            for e in errs:
+                if e in reach and e not in ub:
+                    if not cfg_g.every_path_passes(t["target"], [e], ub):
+                        out.append((g, e, "call frames"))
+                    elif not cfg_g.every_path_passes(t["target"], [e], tb):
+                        out.append((g, e, "values on the value stack"))
+        leak_memo[g.short] = (out, sites, len(ub))
+        return leak_memo[g.short]
+
+    leaks, push_sites, n_unwind = leaks_of(f0)
+    if not push_sites and not any(has_push(g) for g in direct) and not has_push(f0):
+        push_sites = []
+    elif not push_sites:
+        push_sites = [None]      # frames are pushed by helpers that unwind their own failures
+    if not push_sites:
+        raise AnchorMissing("call-stack pushes (direct or through a helper) in run_function")
+    if leaks:
+        gl, e, what = leaks[0]
+        res.append(bad("C18.B", key_e, gl.loc(fb_first_ln(gl, e)),
+                       "run_function returns an error after frames were pushed for the callee without dropping the %s the failed callee "
+                       "left behind: a host function that carries on after the error (Err -> default value) continues with foreign frames on "
+                       "the call stack, and the caller's next Return jumps to the trap address - the program stops early and reports "
+                       "success" % what))
+    else:
+        res.append(ok("C18.B", key_e, f0.loc(), "every error exit after the frames were pushed passes through the unwinding of call frames "
+                      "(%d site(s) in run_function, helpers that fail clean not counted) and of the value stack" % n_unwind))
+    pushes = []
+    runs = []
+    for g in unit:
+        du_g = DefUse(g)
+        pushes += [(g, bi, t) for bi, t in mu.calls(g) if "collections::bounded_stack::BoundedStack::push" in callee_names(t["func"])
+                   and fb._is_call_stack(g, du_g, t["args"][0])]
+        runs += [(g, bi, t) for bi, t in mu.calls(g) if "vm::Vm::_run" in callee_names(t["func"])]
+    if not pushes or not runs:
+        raise AnchorMissing("frame push / _run in run_function or its helpers")
+    f = pushes[0][0]
     du = DefUse(f)
     cfg = f.cfg
-    pushes = [(bi, t) for bi, t in mu.calls(f) if "collections::bounded_stack::BoundedStack::push" in callee_names(t["func"])]
-    pops = [(bi, t) for bi, t in mu.calls(f) if "collections::bounded_stack::BoundedStack::pop" in callee_names(t["func"])]
-    runs = [(bi, t) for bi, t in mu.calls(f) if "vm::Vm::_run" in callee_names(t["func"])]
-    if not pushes or not runs:
-        raise AnchorMissing("frame push / _run in run_function")
-    # the push is inside a loop `for _ in 0..2`
-    in_loop = any(cfg.dominates(h, pushes[0][0]) for (_a, h) in cfg.back_edges())
-    n_iter = None
-    for b in f.blocks:
-        for st in b["stmts"]:
-            if st["k"] == "assign" and st["rv"]["k"] == "agg" and short(st["rv"]["agg"].get("path", "")).endswith("ops::Range"):
-                a, b2 = st["rv"]["ops"]
-                if a.get("k") == "const" and b2.get("k") == "const":
-                    n_iter = b2.get("val") - a.get("val")
-    n_push = (n_iter if in_loop and n_iter is not None else len(pushes))
-    after = [bi for bi, _t in pops if bi in cfg.reachable_from(runs[0][1]["target"])] if runs[0][1]["target"] is not None else []
-    if n_push - len(after) == 1:
-        res.append(ok("C18.B", "C18/B/run_function/frames-balanced", f.loc(), "%d frames pushed, %d popped after the callee returns; the callee's Return pops the other" % (n_push, len(after))))
-    else:
-        res.append(bad("C18.B", "C18/B/run_function/frames-balanced", f.loc(), "run_function pushes %s frame(s) and pops %d after the call: the caller's call stack is not what it was (expected pushes - pops = 1, the callee's Return pops one)" % (n_push, len(after))))
     # the trap frame returns to the final Exit: dst_instr_ptr = bytecode.len() - 1
+    def is_len_minus_one(g, l, depth=0):
+        """local l of g holds `<Vec>.len() - 1`, followed through copies, casts and - when it is a parameter of a helper -
+        into the argument at every call site inside the unit"""
+        du_g = DefUse(g)
+        seen = set()
+        while l is not None and l not in seen:
+            seen.add(l)
+            if 1 <= l <= g.mir["arg_count"] and not du_g.defs.get(l):
+                if depth > 4:
+                    return False
+                sites = [(h, t0) for h in unit for _bi0, t0 in mu.calls(h) if g.short in callee_names(t0["func"]) and len(t0["args"]) >= l]
+                return bool(sites) and all(op_local(t0["args"][l - 1]) is not None and is_len_minus_one(h, op_local(t0["args"][l - 1]), depth + 1)
+                                           for h, t0 in sites)
+            d = du_g.sole_def(l)
+            if d is None or d[2] != "assign":
+                return False
+            rv = d[3]["rv"]
+            if rv["k"] == "bin" and rv["op"].startswith("Sub") and rv["r"].get("k") == "const" and rv["r"].get("val") == 1:
+                ll = op_local(rv["l"])
+                dd = du_g.sole_def(ll) if ll is not None else None
+                return dd is not None and dd[2] == "call" and any(n.endswith("Vec::len") for n in callee_names(dd[3]["func"]))
+            if rv["k"] in ("use", "cast"):
+                p_ = op_place(rv["op"])
+                if p_ is None:
+                    return False
+                l = p_["l"]   # `.0` of a checked-arithmetic tuple is transparent
+                continue
+            return False
+        return False
+
     okdst = False
-    for b in f.blocks:
-        for st in b["stmts"]:
-            if st["k"] == "assign" and st["rv"]["k"] == "agg" and short(st["rv"]["agg"].get("path", "")).endswith("runtime::CallFrame"):
-                fields = st["rv"]["agg"]["fields"]
-                l = op_local(st["rv"]["ops"][fields.index("dst_instr_ptr")])
-                seen = set()
-                while l is not None and l not in seen:
-                    seen.add(l)
-                    d = du.sole_def(l)
-                    if d is None or d[2] != "assign":
-                        break
-                    rv = d[3]["rv"]
-                    if rv["k"] == "bin" and rv["op"].startswith("Sub") and rv["r"].get("k") == "const" and rv["r"].get("val") == 1:
-                        ll = op_local(rv["l"])
-                        dd = du.sole_def(ll) if ll is not None else None
-                        if dd is not None and dd[2] == "call" and any(n.endswith("Vec::len") for n in callee_names(dd[3]["func"])):
-                            okdst = True
-                        break
-                    if rv["k"] in ("use", "cast"):
-                        p = op_place(rv["op"])
-                        if p is None:
-                            break
-                        l = p["l"]   # `.0` of a checked-arithmetic tuple is transparent
-                        continue
-                    break
+    n_frames = 0
+    for g in unit:
+        for b in g.blocks:
+            for st in b["stmts"]:
+                if st["k"] == "assign" and st["rv"]["k"] == "agg" and short(st["rv"]["agg"].get("path", "")).endswith("runtime::CallFrame"):
+                    fields = st["rv"]["agg"]["fields"]
+                    n_frames += 1
+                    okdst = is_len_minus_one(g, op_local(st["rv"]["ops"][fields.index("dst_instr_ptr")]))
     if okdst:
         res.append(ok("C18.B", "C18/B/run_function/trap-returns-to-exit", f.loc(), "the trap frame's return address is bytecode.len() - 1, the final Exit (C10.E)"))
     else:
         res.append(bad("C18.B", "C18/B/run_function/trap-returns-to-exit", f.loc(), "the trap frame does not return to the final Exit instruction: the callee's Return continues executing the program"))
     # the result is popped and returned
-    ret_pop = any(any(n.endswith("Vm::stack_pop") for n in callee_names(t["func"])) for bi, t in mu.calls(f) if runs[0][1]["target"] is not None and bi in cfg.reachable_from(runs[0][1]["target"]))
+    starts = [(g, t["target"]) for g, _bi, t in runs if t["target"] is not None]
+    if direct:
+        starts += [(f0, t["target"]) for bi, t in mu.calls(f0) if t["target"] is not None and
+                   any(F.fn(n, required=False) in direct for n in callee_names(t["func"]))]
+    ret_pop = any(any(n.endswith("Vm::stack_pop") for n in callee_names(t["func"]))
+                  for g, st_ in starts for bi, t in mu.calls(g) if bi in g.cfg.reachable_from(st_))
     if ret_pop:
         res.append(ok("C18.B", "C18/B/run_function/result-popped", f.loc(), "the callee's return value is popped and handed back"))
     else:
@@ -371,5 +522,5 @@ RULES = [
     Rule("C18.C", rule_c, 5, "nested conversions of host-function parameters are propagated"),
     Rule("C18.H", shared(_c14.rule_b, "C14.B", "C18.H"), 14, "value-stack heights are only set from frame offsets (shared with C14.B)"),
     Rule("C18.N", rule_n, 1, "reserved names cannot be registered"),
-    Rule("C18.B", rule_b, 3, "re-entry is frame balanced"),
+    Rule("C18.B", rule_b, 4, "re-entry is frame balanced; a failed callee is unwound"),
 ]
